@@ -189,6 +189,8 @@ class World:
         self.outpoint_table = {}    # (txid, idx) -> (script, value): chain independent
         self.version = 0        # bumped on every change (stability detection)
         self.collision_txs = []     # pre-ground txs sharing a 4-byte txid prefix, as placed
+        self.protect_collisions = False     # when set, outputs of collision txs placed from now
+        self.protected = set()              # on are never drawn as inputs (they stay live UTXOs)
         genesis = self._add_block(None, [self._coinbase(0, [(0, 0)], 0)])
         self.best = genesis
         self.genesis = genesis
@@ -235,7 +237,8 @@ class World:
         created earlier in the same block); choice % len(list).'''
         height = parent.height + 1
         st = self.states[parent.hash]
-        avail = list(st.order)
+        avail = [o for o in st.order if o not in self.protected] if self.protected else \
+            list(st.order)
         avail_set = set(avail)
         cb = None
         if desc.get('coll') is not None:
@@ -247,6 +250,8 @@ class World:
                 if cand.txid.hex() == m['txid'] and cand.txid not in self._chain_txids(parent):
                     cb = cand
                     self.collision_txs.append(cand)
+                    if self.protect_collisions:
+                        self.protected.update((cand.txid, i) for i in range(len(cand.outs)))
         if cb is None:
             cb = self._coinbase(height, desc.get('cb') or [[0, 0]], desc.get('nonce', 0))
         txs = [cb]
@@ -398,7 +403,7 @@ class World:
         those already spent in the mempool.'''
         st = self.states[self.best.hash]
         spent = {p for tx in self.mempool.values() for p in tx.ins if p != GEN_PREV}
-        conf = [o for o in st.order if o not in spent]
+        conf = [o for o in st.order if o not in spent and o not in self.protected]
         unconf = [(tx.txid, i) for tx in self.mempool.values() for i in range(len(tx.outs))
                   if (tx.txid, i) not in spent
                   and not unspendable(tx.outs[i][0], self.height + 1, self.activation)]
